@@ -390,6 +390,27 @@ def run(ctx):
                           "a reader that lists the type first returns a different outcome through the cached handle for a snapshot another process removed",
                           {"readers": ln, "reader": name, "cached": a, "uncached": b, "source_events": evs,
                            "how_to_replay": "echo '<readers>' > f; <target>/debug/c19 f readers   (harness/src/bin/c19.rs readers_case)"}, signature=sig)
+    # ---- check with every option combination that changes how the cache is used, over planted cache files
+    co_lines = ["%d" % rng.randint(1, 10 ** 9) for _ in range(3 if ctx.thorough() else 1)] if not ctx.replay else []
+    if ctx.replay and "checkopts" in json.load(open(ctx.replay))["witness"]:
+        co_lines = [json.load(open(ctx.replay))["witness"]["checkopts"]]
+    co_out = run_lines(impl, co_lines, "checkopts", timeout=1500) if co_lines else []
+    co_stats = {"seeds": len(co_lines), "check_runs_compared": 0, "bad_cache_entries_before_the_runs": 0}
+    for ln, out in zip(co_lines, co_out):
+        tries = 0
+        while out.startswith("panic") and "index still in use" in out and tries < 2:
+            tries += 1; out = run_lines(impl, [ln], "checkopts", timeout=1500)[0]
+        kv = dict(x.split("=", 1) for x in out.split(" | ")[0].split()[1:] if "=" in x)
+        if out.startswith("ok "):
+            co_stats["check_runs_compared"] += int(kv["runs"]); co_stats["bad_cache_entries_before_the_runs"] += int(kv["bad_entries_before"])
+        elif out.startswith("FAIL"):
+            co_stats["check_runs_compared"] += int(kv["runs"])
+            ctx.violation("check (some combination of trust_cache / read_data) reports a different verdict through the cached handle than without cache, or leaves files in the cache that the repository does not have, for a planted stale / foreign / truncated / longer / misplaced cache file",
+                          {"checkopts": ln, "failing_runs": out.split(" | ", 1)[1][:1500],
+                           "how_to_replay": "echo '<checkopts>' > f; <target>/debug/c19 f checkopts   (harness/src/bin/c19.rs checkopts_case)"})
+        elif not (out.startswith("panic") and "index still in use" in out):
+            ctx.violation("check with option combinations could not be run", {"checkopts": ln, "result": out[:800]}, no_input=True)
+    cov["check_option_combinations"] = co_stats
     # ---- recorded calls of the real commands on the cached handle, judged by the extracted Model.disciplined
     tr_lines = ["%d" % rng.randint(1, 10 ** 9) for _ in range(6 if ctx.thorough() else 2)] if not ctx.replay else []
     tr_out = run_lines(impl, tr_lines, "trace", timeout=1500) if tr_lines else []
